@@ -520,6 +520,7 @@ def handle (st : Unit) (j : Json) : Except String (Unit × Json) := do
       ("c04_text_bb", pr (Spydr.Verilog.Elab.reportBB n)), ("c04_full_bb", pr (Spydr.Verilog.Elab.reportFullBB n)),
       ("c04_ast_hier", pr (Spydr.Verilog.Elab.reportHier n)),
       ("c04_ast_hierA", pr (Spydr.Verilog.Elab.reportHierA n)),
+      ("c04_text_hierA", pr (Spydr.Verilog.Elab.reportHierTextA n)),
       ("c04_text_hier", pr (Spydr.Verilog.Elab.reportHierText n))])
   else if fn == "fragment06" then
     let t ← getStr j "text"
